@@ -378,6 +378,7 @@ class ExplicitSymplecticIntegrator(TableauIntegrator):
         self.initial_state = D.ar_numpy.copy(initial_state)
         self.initial_time = D.ar_numpy.copy(initial_time)
         self.initial_rhs = None
+        self.final_rhs = None
 
         self.step(rhs=rhs, initial_time=initial_time, initial_state=initial_state,
                   constants=constants, timestep=timestep)
